@@ -1,0 +1,66 @@
+//go:build verif
+
+/*
+Copyright (c) Meta Platforms, Inc. and affiliates.
+Licensed under the Apache License, Version 2.0 (the "License");
+you may not use this file except in compliance with the License.
+You may obtain a copy of the License at
+    http://www.apache.org/licenses/LICENSE-2.0
+Unless required by applicable law or agreed to in writing, software
+distributed under the License is distributed on an "AS IS" BASIS,
+WITHOUT WARRANTIES OR CONDITIONS OF ANY KIND, either express or implied.
+See the License for the specific language governing permissions and
+limitations under the License.
+*/
+
+package metrics
+
+import "time"
+
+// This file is only compiled with the `verif` build tag. The public path
+// (Stats.AddSample) hard-codes a 60 s sample lifetime; the external
+// verification harness needs windows with a lifetime of its choice, and a way
+// to read the samples a Stats window currently holds.
+
+// WindowForVerif is the sliding window behind Stats.AddSample / Stats.Get.
+type WindowForVerif = slidingWindow
+
+// NewWindowForVerif creates a sliding window with the given sample lifetime
+// and launches its cleaner, exactly as Stats.AddSample does with 60 s.
+func NewWindowForVerif(sampleLifetime time.Duration) (*WindowForVerif, error) {
+	return newSlidingWindow(sampleLifetime)
+}
+
+// StopForVerif terminates the cleaner goroutine of the window.
+func (sw *slidingWindow) StopForVerif() {
+	select {
+	case sw.stopping <- struct{}{}:
+	default:
+	}
+}
+
+// InstallWindowForVerif registers a sliding window with the given sample
+// lifetime under key, so that Stats.AddSample(key, ...) feeds it and
+// Stats.Get() exports its min/max/avg.
+func (stats *Stats) InstallWindowForVerif(key string, sampleLifetime time.Duration) (*WindowForVerif, error) {
+	w, err := newSlidingWindow(sampleLifetime)
+	if err != nil {
+		return nil, err
+	}
+	stats.wlock.Lock()
+	stats.windows[key] = w
+	stats.wlock.Unlock()
+	return w, nil
+}
+
+// SamplesForVerif returns the samples currently held by the window registered
+// under key (nil, false if there is no such window).
+func (stats *Stats) SamplesForVerif(key string) ([]int64, bool) {
+	stats.wlock.RLock()
+	w, ok := stats.windows[key]
+	stats.wlock.RUnlock()
+	if !ok {
+		return nil, false
+	}
+	return w.Samples(), true
+}
